@@ -106,10 +106,15 @@ def run_protocol(chunks, cand_kind, cfg, payload_mode: bool, ctx, case):
     _ensure_loop()
     q: asyncio.Queue = asyncio.Queue()
     cls = meter_connection.SmartMeterMessagePayloadProtocol if payload_mode else meter_connection.SmartMeterMessageProtocol
-    proto = cls(q, make_candidates(cand_kind, cfg))
+    global _protocols
+    cands = make_candidates(cand_kind, cfg)
+    own = list(cands)
+    proto = cls(q, cands)
+    cleared = _protocols % 4 == 1
+    if cleared:
+        cands.clear()  # the list belongs to the caller, who may reuse it for something else once the protocol exists
     # the protocol object's life as asyncio drives it: connection_made(transport) first - successive objects are reconnects to the
     # same endpoint - and connection_lost() at the end; the endpoint kinds rotate (vf/mon/transports.py)
-    global _protocols
     _protocols += 1
     tkind = transports.kind_for(_protocols)
     tr = None
@@ -132,6 +137,8 @@ def run_protocol(chunks, cand_kind, cfg, payload_mode: bool, ctx, case):
             ctx.seen("exceptions(decided by C14)", p1_mon.where(ex))
             break
         fed.append(ch)
+    if not cleared and [id(c) for c in cands] != [id(c) for c in own]:
+        ctx.violation("C13:callers-candidate-list-modified", f"the list of candidate readers handed to the protocol was changed by it ({len(own)} readers before, {len(cands)} after)", case)
     items = drain(q)
     if tr is not None and _protocols % 3 == 0:
         try:
@@ -271,7 +278,7 @@ async def _socket_history(stream, write_chunks, cand_kind, cfg, payload_mode):
     a, b = socket.socketpair()
     q: asyncio.Queue = asyncio.Queue()
     factory = tcf.create_tcp_message_payload_connection if payload_mode else tcf.create_tcp_message_connection
-    transport, proto = await factory(q, loop, make_candidates(cand_kind, cfg), sock=a)
+    transport, proto = await factory(q, loop, None if cand_kind is None else make_candidates(cand_kind, cfg), sock=a)
     delivered = []
     real = proto.data_received
 
@@ -292,9 +299,25 @@ async def _socket_history(stream, write_chunks, cand_kind, cfg, payload_mode):
 
 def run_socket(shard, ctx) -> None:
     rng = ctx.rng("c13", "socket")
+    pending_default = None
     for i in range(shard["n"]):
         cfg, stream, clean, kind, cand = make_case(rng)
         payload_mode = rng.random() < 0.6
+        use_default = False
+        if i % 3 != 0 or pending_default is not None:
+            # the factories' own default candidates (readers=None: an HDLC reader without stuffing plus a P1 reader, fresh for every
+            # connection): one connection that is cut off in the middle of a message, then another one in the same process
+            cfg, cand, use_default = (False, True), "HP", True
+            if pending_default is None:
+                stream, sent = c02mod.make_stream(rng, cfg)
+                stream = stream[: max(8, len(stream) - rng.randint(3, 40))]
+                clean = None
+                pending_default = True
+            else:
+                stream, sent = c02mod.make_stream(rng, cfg)
+                clean = [d["info"] for _f, d in sent if d["info"]]
+                pending_default = None
+            ctx.count("socket_histories_with_the_factory_default_readers")
         if len(stream) > 60000:
             stream = stream[:60000]
             clean = None
@@ -302,7 +325,7 @@ def run_socket(shard, ctx) -> None:
         loop = asyncio.new_event_loop()
         try:
             asyncio.set_event_loop(loop)
-            items, delivered = loop.run_until_complete(_socket_history(stream, splits.chunks(stream, spec), cand, cfg, payload_mode))
+            items, delivered = loop.run_until_complete(_socket_history(stream, splits.chunks(stream, spec), None if use_default else cand, cfg, payload_mode))
         except Exception as ex:
             ctx.count("socket_history_failed(harness)")
             ctx.seen("socket_failures", repr(ex)[:120])
